@@ -88,7 +88,8 @@ def r4_propagation(chk: Check):
         return
     lp = loops[0]
     calls = [c for s in lp.ast.body for c in walk_local(s) if isinstance(c, ast.Call)]
-    ok = any(src(c) in ("self.loop.call_soon(dependency.check)", "dependency.check()") for c in calls)
+    v = src(lp.ast.target)
+    ok = any(src(c) in (f"self.loop.call_soon({v}.check)", f"{v}.check()") for c in calls)
     chk.require(ok, chk.fkey(sub, "each dependent is re-checked"), f"the dependents loop does {[src(c) for c in calls if not src(c).startswith('logger')]}: every dependent must be re-checked (called or scheduled) with no extra argument", chk.loc(sub.module, lp.ast))
     # on every live normal exit
     js = JobStates(tree)
